@@ -7,6 +7,7 @@ output or not) the fault-free call is recorded on the simulated disk, then EVERY
 becomes pending at seeded bytecode instructions of the create-binary stage.  The other two clauses of C14 (specific
 exception for every source text, never hangs) quantify over inputs only and are NOT claimed.
 """
+import contextlib
 import copy
 import errno
 import os
@@ -86,7 +87,9 @@ def setup_worker():
     if mon.get_tool(sigint.TOOL) is None:
         mon.use_tool_id(sigint.TOOL, 'verif-sigint')
     mon.register_callback(sigint.TOOL, mon.events.INSTRUCTION, _sig.on_instruction)
-    for fn in (fjm_writer.Writer.write_to_file, fjm_writer.Writer._compress_data, functions.save_debugging_labels):
+    from flipjump.utils import classes
+    for fn in (fjm_writer.Writer.write_to_file, fjm_writer.Writer._compress_data, functions.save_debugging_labels,
+               classes.PrintTimer.__enter__, classes.PrintTimer.__exit__):
         mon.set_local_events(sigint.TOOL, fn.__code__, mon.events.INSTRUCTION)
     _sig.arm(-1)
 
@@ -147,7 +150,27 @@ def loads(path):
         FS.plan = saved
 
 
-def call_assemble(case, fault, instr_n=-1):
+class FaultyStdout:
+    """stand-in for sys.stdout whose k-th write fails with EPIPE (the reader of the progress messages went away)"""
+
+    def __init__(self, fail_at):
+        self.fail_at = fail_at
+        self.writes = 0
+        self.fired = False
+
+    def write(self, text):
+        n = self.writes
+        self.writes += 1
+        if n == self.fail_at:
+            self.fired = True
+            raise BrokenPipeError(errno.EPIPE, 'Broken pipe')
+        return len(text)
+
+    def flush(self):
+        pass
+
+
+def call_assemble(case, fault, instr_n=-1, stdout_fail_at=None):
     """one assemble() call on the simulated disk under the fault plan. returns (raised?, exception name, fired?)"""
     import flipjump
     from flipjump.fjm.fjm_consts import FJMVersion
@@ -172,9 +195,20 @@ def call_assemble(case, fault, instr_n=-1):
     _sig.arm(instr_n)
     try:
         try:
-            flipjump.assemble(srcs, OUT, memory_width=case['w'], use_stl=stl, fjm_version=ver, print_time=False,
-                              debugging_file_path=dbg)
-            returned = True
+            if stdout_fail_at is not None:
+                fake = FaultyStdout(stdout_fail_at)
+                with contextlib.redirect_stdout(fake):
+                    try:
+                        flipjump.assemble(srcs, OUT, memory_width=case['w'], use_stl=stl, fjm_version=ver,
+                                          print_time=True, debugging_file_path=dbg)
+                        returned = True
+                    finally:
+                        call_assemble.stdout_writes = fake.writes
+                        call_assemble.stdout_fired = fake.fired
+            else:
+                flipjump.assemble(srcs, OUT, memory_width=case['w'], use_stl=stl, fjm_version=ver, print_time=False,
+                                  debugging_file_path=dbg)
+                returned = True
         finally:
             # an interrupt that surfaces only after assemble() has returned hit the harness, not the assembly
             cnt, sigfired = _sig.status()
@@ -189,6 +223,8 @@ def call_assemble(case, fault, instr_n=-1):
         _sig.arm(-1)
         kernel.drain_interrupt()
     fired = FS.fired or bool(sigfired) or (fault is not None and fault.get('kind') == 'crash' and raised == 'SimCrash')
+    if stdout_fail_at is not None:
+        fired = getattr(call_assemble, 'stdout_fired', False)
     FS.plan = None
     return raised, fired, before
 
@@ -262,6 +298,24 @@ def run(case):
                         violations.append(_v('failed-assembly-left-loadable-file', plan_, raised, st,
                                              _op_desc(ops0, plan_)))
                         if len(violations) >= 4:
+                            break
+            if len(violations) < 4:
+                # the progress messages' stream fails at its k-th write (print_time=True, the default of the API)
+                call_assemble(case, None, stdout_fail_at=10 ** 9)
+                nwrites = getattr(call_assemble, 'stdout_writes', 0)
+                for k in range(nwrites):
+                    raised, fired, before = call_assemble(case, None, stdout_fail_at=k)
+                    evals += 1
+                    cur = faults.setdefault('stdout-epipe@write', [0, 0])
+                    cur[0] += 1
+                    cur[1] += 1 if fired else 0
+                    st = judge(case, raised, before)
+                    states.add(f"stdout|{'raised' if raised else 'returned'}|{st}")
+                    if raised is not None:
+                        nontrivial += 1
+                        if st == 'loadable':
+                            violations.append(_v('failed-assembly-left-loadable-file',
+                                                 {'kind': 'stdout-epipe', 'write': k}, raised, st))
                             break
             if len(violations) < 4:
                 for n in sig_ns:
